@@ -250,6 +250,8 @@ def check_extraction(chk, v, rule="R5"):
         pieces2.append(q)
     if not problems:
         ok, detail, infos = pam.check_map(pieces2, ("sym", "$out"), ("sym", "$in"), N, -1, IDX, facts, want_op="=")
+        if ok is None:
+            chk.broken("tLweExtractLweSampleIndex: %s" % detail)
         if not ok:
             problems.append(detail)
     if len(bst) != 1 or bst[0]["op"] != "=" or bst[0]["val"] != sym.idx(sym.arrow(P(x, "b"), "coefsT"), IDX):
